@@ -168,8 +168,11 @@ func Draw(t *sim.Tape, p DrawParams) *Workload {
 			}
 		}
 		if p.Contract {
-			if t.Next(4) == 0 {
+			switch t.Next(8) {
+			case 0, 1:
 				st.Ops = append(st.Ops, simfn.Op{"op": "contextReset"})
+			case 2:
+				st.Ops = append(st.Ops, simfn.Op{"op": "contextDrop"})
 			}
 			if t.Next(4) == 0 {
 				st.Ops = append(st.Ops, simfn.Op{"op": "require", "mode": "narrow", "report": "y"})
